@@ -237,7 +237,7 @@ func reifyMap(opts *options, to reflect.Value, from *Config, validators []valida
 	for _, k := range from.fields.sortedNames() {
 		value := fields[k]
 		opts.activeFields = newFieldSet(parentFields)
-		key := reflect.ValueOf(k)
+		key := reflect.ValueOf(k).Convert(to.Type().Key()) // the key type may be a named string type
 
 		old := to.MapIndex(key)
 		if old.IsValid() && !old.CanAddr() {
